@@ -282,6 +282,20 @@ impl From<Si> for RealE {
     }
 }
 
+/// Per-record output value whose creations (`Default::default()`, the only way the simple per-record functions can
+/// make one) are counted per OS thread; under the schedule tier all tasks of an execution run on one OS thread.
+#[derive(Debug)]
+pub struct Cnt(pub u64);
+thread_local! {
+    static CREATED: std::cell::Cell<usize> = const { std::cell::Cell::new(0) };
+}
+impl Default for Cnt {
+    fn default() -> Cnt {
+        CREATED.with(|c| c.set(c.get() + 1));
+        Cnt(0)
+    }
+}
+
 #[derive(Default, Debug)]
 pub struct RealObs {
     /// (record index, output matches this record, hash)
@@ -292,6 +306,8 @@ pub struct RealObs {
     /// (record index, source position) observed by the consumer when it handles a record (C16: reader lead)
     pub lead: Vec<(usize, usize)>,
     pub data_inits: usize,
+    /// api 0 / 3: number of per-record output values created through Default (schedule tier only)
+    pub outputs_created: usize,
     pub data_init_failed: bool,
     pub rset_inits: usize,
     pub rset_init_failed: Option<usize>,
@@ -353,7 +369,7 @@ macro_rules! per_record_apis {
             if stop == Some(0) {
                 // "never asks" cannot be expressed with the per-record API: the first record always reaches func
             }
-            $simple(reader, c.n_threads, c.queue_len, work, func).map(|o| o.is_some()).map_err(RealE::from)
+            $simple(reader, c.n_threads, c.queue_len, move |rec: $rec, d: &mut Cnt| work(rec, &mut d.0), move |rec: $rec, d: &mut Cnt| func(rec, &mut d.0)).map(|o| o.is_some()).map_err(RealE::from)
         } else {
             let doc = $doc.clone();
             let (cap, chunk, ri_fails) = (c.cap, c.chunk, c.reader_init_fails);
@@ -449,6 +465,7 @@ pub fn sequential_batches(c: &RealCfg) -> (Vec<(usize, usize)>, usize) {
 /// One execution; must be called inside shuttle.
 pub fn execute_real(c: &RealCfg, obs: &SharedReal) {
     PROGRESS.with(|p| *p.borrow_mut() = Default::default());
+    CREATED.with(|k| k.set(0));
     let doc = document(c);
     let res: Result<bool, RealE> = if c.api == 3 {
         // the generic per-record function over any parallel::Reader whose data set iterates over records
@@ -465,19 +482,19 @@ pub fn execute_real(c: &RealCfg, obs: &SharedReal) {
                 reader,
                 c.n_threads,
                 c.queue_len,
-                move |rec: fastq::RefRecord, d: &mut u64| {
+                move |rec: fastq::RefRecord, d: &mut Cnt| {
                     late(&o_w, "work");
                     for _ in 0..yields {
                         crate::sys::yield_now();
                     }
-                    *d = fq_hash(&rec).1;
+                    d.0 = fq_hash(&rec).1;
                 },
-                move |rec: fastq::RefRecord, d: &u64| {
+                move |rec: fastq::RefRecord, d: &Cnt| {
                     late(&o_f, "func");
                     let (idx, h) = fq_hash(&rec);
                     {
                         let mut g = o_f.lock().unwrap();
-                        g.seen.push((idx, *d == h, h));
+                        g.seen.push((idx, d.0 == h, h));
                         g.lead.push((idx, progress3.load(std::sync::atomic::Ordering::SeqCst)));
                     }
                     for _ in 0..cons_yields3 {
@@ -499,19 +516,19 @@ pub fn execute_real(c: &RealCfg, obs: &SharedReal) {
                 reader,
                 c.n_threads,
                 c.queue_len,
-                move |rec: fasta::RefRecord, d: &mut u64| {
+                move |rec: fasta::RefRecord, d: &mut Cnt| {
                     late(&o_w, "work");
                     for _ in 0..yields {
                         crate::sys::yield_now();
                     }
-                    *d = fa_hash(&rec).1;
+                    d.0 = fa_hash(&rec).1;
                 },
-                move |rec: fasta::RefRecord, d: &u64| {
+                move |rec: fasta::RefRecord, d: &Cnt| {
                     late(&o_f, "func");
                     let (idx, h) = fa_hash(&rec);
                     {
                         let mut g = o_f.lock().unwrap();
-                        g.seen.push((idx, *d == h, h));
+                        g.seen.push((idx, d.0 == h, h));
                         g.lead.push((idx, progress3.load(std::sync::atomic::Ordering::SeqCst)));
                     }
                     for _ in 0..cons_yields3 {
@@ -650,6 +667,7 @@ pub fn execute_real(c: &RealCfg, obs: &SharedReal) {
     let mut g = obs.lock().unwrap();
     g.result = Some(res);
     g.returned = true;
+    g.outputs_created = CREATED.with(|k| k.get());
 }
 
 /// C16 for the convenience wrappers too (read_parallel, parallel_fasta/fastq, parallel_records take the queue length
@@ -757,6 +775,20 @@ pub fn check_real(c: &RealCfg, o: &RealObs) -> CheckResult {
             format!("real/{}/per-record-outputs-not-recycled", f),
             "record_data_init was called {} times for {} records; with {} data sets and at most {} records per set it is needed at most {} times",
             o.data_inits,
+            n,
+            c.queue_len + 1,
+            m,
+            (c.queue_len + 1) * m
+        );
+    }
+    if (c.api == 0 || c.api == 3) && crate::sys::SINGLE_OS_THREAD {
+        // the simple per-record functions create the outputs through Default: each data set recycles its vector
+        let m = max_batch(c);
+        ensure!(
+            o.outputs_created <= (c.queue_len + 1) * m + 1,
+            format!("real/{}/per-record-outputs-not-recycled", f),
+            "{} per-record output values were created (Default::default()) for {} records; with {} data sets and at most {} records per set at most {} are needed",
+            o.outputs_created,
             n,
             c.queue_len + 1,
             m,
